@@ -696,8 +696,64 @@ class SnpRule(object):
                 return ("field", names[b["n"]], t["f"])
         return None
 
+    def helper_accumulates(self, chk, rule):
+        """a helper that counts what it emits into an accumulator parameter does so on EVERY path: the count is the length the
+        untruncated output needs, so it must not depend on the room left (an early return when the buffer is full loses it)"""
+        for f in self.funcs:
+            h = self.helpers.get(f.name)
+            if not h or not h.get("acc") or f.entry is None:
+                continue
+            names = {p["n"]: i for i, p in enumerate(f.params)}
+            acc = h["acc"]
+            ctx = self
+            class AccFlow(Flow):
+                def init(self2):
+                    return False
+                def join(self2, a, b):
+                    return a and b
+                def edge(self2, st, blk, cond, truth):
+                    # a failed production (res < 0) is not counted: that path is exempt
+                    if isinstance(truth, bool) and h.get("res") is not None:
+                        rn = f.params[h["res"]]["n"]
+                        for atom, t in edge_facts(cond, truth):
+                            l, op, r = rel(atom, t)
+                            if lv(l) == rn and cval(r) == 0 and op == "<":
+                                return True
+                            if lv(l) == rn and cval(r) == -1 and op == "<=":
+                                return True
+                    return st
+                def elem(self2, st, n):
+                    a = assigned(n)
+                    if a and a[1] in ("++", "+=") and ctx.formal(a[0], names) == acc:
+                        return True
+                    if n["k"] == "Return" and self2.recording:
+                        self2.rets.append((n, st))
+                    return st
+            fl = AccFlow(f)
+            fl.rets = []
+            fl.run()
+            bad = [n for n, st in fl.rets if not st]
+            end_ok = fl.inb.get(f.exit, True)
+            # the implicit end of a void function: predecessors of the exit block that do not end with a return
+            ok = not bad and (end_ok is True or all(f.nodes[f.blocks[p]["e"][-1]]["k"] == "Return" for p in f.preds.get(f.exit, []) if f.blocks[p]["e"]))
+            if not bad and not ok:
+                # recompute precisely: state at the end of each predecessor of exit
+                ok = True
+                for p in f.preds.get(f.exit, []):
+                    st = fl.inb.get(p)
+                    if st is None:
+                        continue
+                    for e in f.blocks[p]["e"]:
+                        st = fl.elem(st, f.nodes[e])
+                    if not st:
+                        ok = False
+            chk.inst(rule, f, "helper-accumulates-on-every-path", ok, "helper %s counts its output into parameter %d on every path%s" % (
+                f.name, acc[1], "" if ok else " -- a return is reachable without the count being updated (e.g. when no room is left): the returned length is then smaller than the untruncated length"),
+                loc=f.loc(bad[0]) if bad else None)
+
     def run(self, chk, rule="R-SNP"):
         n_prod = n_adv = n_funcs = 0
+        self.helper_accumulates(chk, rule)
         for f in self.funcs:
             relevant = bool(self.static_pairs.get(f.name)) or f.name in self.helpers or self.like.get(f.name)
             if not relevant:
